@@ -35,6 +35,7 @@ fn profile_name() -> &'static str {
 }
 
 fn main() {
+    core::START.get_or_init(std::time::Instant::now);
     let args: Vec<String> = std::env::args().collect();
     install_panic_hook();
     let cmd = args.get(1).map(|s| s.as_str()).unwrap_or("");
